@@ -107,6 +107,10 @@ def run_case(case, ctx):
             got = g(name, op)
             ctx.need(bool(got) == exp, "SpanSet/%s/wrong" % name,
                      lambda: "A(%s)=%r %s B(%s)=%r is %r, definition gives %r" % (REL_NAMES[ra], ka, name, REL_NAMES[rb], kb, got, exp))
+        # operators and comparisons are pure: both operands still hold exactly their spans (second iteration, len, membership)
+        la2, lb2 = g("iter", lambda: list(A)), g("iter", lambda: list(B))
+        ctx.need(la2 == ka and lb2 == kb and len(A) == len(ka) and len(B) == len(kb), "SpanSet/operand-changed-by-an-operator",
+                 lambda: "after the operators A=%r (was %r), B=%r (was %r)" % (la2, ka, lb2, kb))
     except _Stop:
         return
     if ra != rb:
